@@ -13,7 +13,8 @@
    is by definition the object's slot / time / signature (their agreement with the schema is C11). *)
 From Coq Require Import List Arith NArith.
 Import ListNotations.
-Require Import YF.Codec YF.ReadAt YF.CI YF.Car YF.C04_Model YF.C04_Formats YF.C01_IndexAll YF.C01_Check YF.C01_Instance.
+Require Import YF.Codec YF.ReadAt YF.CI YF.Car YF.C04_Model YF.C04_Formats YF.C01_IndexAll YF.C01_Check YF.C01_Instance YF.C01_Instance2.
+Require YF.C05_Model.
 
 Section Statements.
 Variable cid_parse : list N -> option (list N * nat).
@@ -106,6 +107,44 @@ Theorem C01_every_signature_resolves_compact_index :
   find_cid_from_sig (list N) (ci_get hash bucket_of) sx ixs sg = Some (Car.cid o) /\ sig_exists (list N) sx sx_has ixs sg = true.
 Proof. exact C01_sigs_with_compact_index. Qed.
 
+(* ---- composed with C04 AND C05: both abstract indexes replaced by their byte-level models (compact index; current
+   sig-exists file format). NO premise about any index is left: for every entry-hash function, in-range bucket
+   function, signature hash function and metadata within the format bounds. What remains as premises is the go-cid
+   contract on the CIDs that occur, well-formedness of the CAR, and the epoch bound. *)
+Theorem C01_every_object_resolves_concrete :
+  forall (cid_parse : list N -> option (list N * nat)) (good_cid : list N -> Prop), (forall c rest, good_cid c -> cid_parse (c ++ rest) = Some (c, length c)) ->
+  forall (kind_of : list N -> kind) (dec_block : list N -> option (N * N)) (dec_sig : list N -> option (list N)) (hash : N -> list N -> N) (bucket_of : nat -> list N -> nat),
+  (forall nb k, 0 < nb -> bucket_of nb k < nb) ->
+  forall m, meta_ok m ->
+  forall (sig_hash : list N -> N) (sx_meta : C05_Model.meta) epoch hdr objs ixs o,
+  wf_car good_cid kind_of dec_block objs ->
+  index_all kind_of dec_block dec_sig (list N) (ci_build hash bucket_of m) (list N) (sx_build sig_hash sx_meta) epoch hdr objs = Some ixs -> In o objs ->
+  get_node_by_cid cid_parse (list N) (ci_get hash bucket_of) (list N) ixs (Car.car hdr objs) (Car.cid o) = Some (Car.data o).
+Proof. exact C01_objects_concrete. Qed.
+
+Theorem C01_every_slot_resolves_concrete :
+  forall (cid_parse : list N -> option (list N * nat)) (good_cid : list N -> Prop), (forall c rest, good_cid c -> cid_parse (c ++ rest) = Some (c, length c)) ->
+  forall (kind_of : list N -> kind) (dec_block : list N -> option (N * N)) (dec_sig : list N -> option (list N)) (hash : N -> list N -> N) (bucket_of : nat -> list N -> nat),
+  (forall nb k, 0 < nb -> bucket_of nb k < nb) ->
+  forall m, meta_ok m ->
+  forall (sig_hash : list N -> N) (sx_meta : C05_Model.meta) epoch hdr objs ixs o slot time,
+  (epoch * epoch_len + epoch_len < 2 ^ 64)%N ->
+  wf_car good_cid kind_of dec_block objs ->
+  index_all kind_of dec_block dec_sig (list N) (ci_build hash bucket_of m) (list N) (sx_build sig_hash sx_meta) epoch hdr objs = Some ixs -> In o objs ->
+  is_block kind_of dec_block o slot time ->
+  find_cid_from_slot (list N) (ci_get hash bucket_of) (list N) ixs slot = Some (Car.cid o) /\ blocktime (list N) (list N) ixs slot = Some time.
+Proof. exact C01_slots_concrete. Qed.
+
+Theorem C01_every_signature_resolves_concrete :
+  forall (kind_of : list N -> kind) (dec_block : list N -> option (N * N)) (dec_sig : list N -> option (list N)) (hash : N -> list N -> N) (bucket_of : nat -> list N -> nat),
+  (forall nb k, 0 < nb -> bucket_of nb k < nb) ->
+  forall m, meta_ok m ->
+  forall (sig_hash : list N -> N) (sx_meta : C05_Model.meta) epoch hdr objs ixs o sg,
+  index_all kind_of dec_block dec_sig (list N) (ci_build hash bucket_of m) (list N) (sx_build sig_hash sx_meta) epoch hdr objs = Some ixs -> In o objs ->
+  is_tx kind_of dec_sig o sg ->
+  find_cid_from_sig (list N) (ci_get hash bucket_of) (list N) ixs sg = Some (Car.cid o) /\ sig_exists (list N) (list N) (sx_has sig_hash) ixs sg = true.
+Proof. exact C01_sigs_concrete. Qed.
+
 (* value codec and block-time file round trips (all values) *)
 Theorem C01_offset_size_codec_roundtrip : forall off len v, enc_os off len = Some v -> dec_os v = Some (off, len).
 Proof. exact dec_enc_os. Qed.
@@ -132,6 +171,9 @@ Print Assumptions C01_recorded_offsets_are_true.
 Print Assumptions C01_every_object_resolves_compact_index.
 Print Assumptions C01_every_slot_resolves_compact_index.
 Print Assumptions C01_every_signature_resolves_compact_index.
+Print Assumptions C01_every_object_resolves_concrete.
+Print Assumptions C01_every_slot_resolves_concrete.
+Print Assumptions C01_every_signature_resolves_concrete.
 Print Assumptions C01_offset_size_codec_roundtrip.
 Print Assumptions C01_blocktime_file_roundtrip.
 Print Assumptions C01_checker_offsets_are_model_offsets.
